@@ -440,11 +440,16 @@ class Mitochondria:
         More complex than glycolysis - like the Krebs cycle in
         the mitochondrial matrix.
         """
-        # Normalize Python boolean literals
-        expression = expression.replace('True', '1').replace('False', '0')
-        expression = expression.replace('true', '1').replace('false', '0')
-
         tree = ast.parse(expression, mode='eval')
+
+        # Accept JSON-style true/false as names; never rewrite the text (string literals must stay intact)
+        class _BoolNames(ast.NodeTransformer):
+            def visit_Name(self, node: ast.Name) -> ast.AST:
+                if node.id in ('true', 'false'):
+                    return ast.copy_location(ast.Constant(value=(node.id == 'true')), node)
+                return node
+
+        tree = _BoolNames().visit(tree)
         return bool(self._compute_node(tree.body))
 
     def _oxidative_phosphorylation(self, expression: str) -> Any:
